@@ -35,11 +35,11 @@ Print Assumptions wrap_shares_memory.
    nothing else touched) and each returned element is a NumpyTensor over the
    very buffer NumPy produced, in a space with that buffer's shape and dtype. *)
 Theorem tensor_call_transparent :
-  forall (T : Type) (cast : dt -> dt -> T -> T) (NP : @npsem T) (st : @store T) (sp : tspace)
+  forall (T : Type) (cast : dt -> dt -> T -> T) (V : variant) (NP : @npsem T) (st : @store T) (sp : tspace)
          (nout : nat) (ins : list (@operand T)) (kw : kwargs) (rins : list (@rop T))
          (rets : list (@operand T)) (st' : @store T),
   map_opt tens_unwrap ins = Some rins ->
-  tens_ufunc cast NP st sp nout MCall ins kw [] = Ok (rets, st') ->
+  tens_ufunc cast V NP st sp nout MCall ins kw [] = Ok (rets, st') ->
   exists rrets,
     raw_ufunc cast NP st MCall kw rins (repeat None nout) = Ok (rrets, st')
     /\ Forall2 (fun r rr => exists spc id, r = OpTens spc id /\ rr = RRBuf id
@@ -56,28 +56,44 @@ Print Assumptions tensor_call_transparent.
    of self's space, and the result space can be constructed (an array weighting
    must be safely castable to the result dtype). *)
 Theorem tensor_call_complete_partial :
-  forall (T : Type) (cast : dt -> dt -> T -> T) (NP : @npsem T) (st : @store T) (sp : tspace)
+  forall (T : Type) (cast : dt -> dt -> T -> T) (V : variant) (NP : @npsem T) (st : @store T) (sp : tspace)
          (nout : nat) (ins : list (@operand T)) (kw : kwargs) (rins : list (@rop T))
          (rrets : list (@rret T)) (st' : @store T),
+  v_grow V = false ->
   map_opt tens_unwrap ins = Some rins ->
   (nout = 1 \/ nout = 2)%nat ->
   raw_ufunc cast NP st MCall kw rins (repeat None nout) = Ok (rrets, st') ->
   Forall (fun rr => exists id, rr = RRBuf id /\ a_shape (rd st' id) = ts_shape sp
                      /\ ts_valid (call_space sp nout (rd st' id)) = true) rrets ->
-  exists rets, tens_ufunc cast NP st sp nout MCall ins kw [] = Ok (rets, st').
+  exists rets, tens_ufunc cast V NP st sp nout MCall ins kw [] = Ok (rets, st').
 Proof. exact @tens_call_complete. Qed.
 Print Assumptions tensor_call_complete_partial.
+
+(* With the proposed repair (variant v_grow: result space built from the shape
+   of the result) the shape guard disappears for one-output ufuncs: complete
+   whenever NumPy succeeds with array results whose space can be built. *)
+Theorem tensor_call_complete_repaired :
+  forall (T : Type) (cast : dt -> dt -> T -> T) (V : variant) (NP : @npsem T) (st : @store T) (sp : tspace)
+         (ins : list (@operand T)) (kw : kwargs) (rins : list (@rop T))
+         (rrets : list (@rret T)) (st' : @store T),
+  v_grow V = true ->
+  map_opt tens_unwrap ins = Some rins ->
+  raw_ufunc cast NP st MCall kw rins [None] = Ok (rrets, st') ->
+  Forall (fun rr => exists id, rr = RRBuf id /\ ts_valid (meth_space sp (rd st' id)) = true) rrets ->
+  exists rets, tens_ufunc cast V NP st sp 1 MCall ins kw [] = Ok (rets, st').
+Proof. exact @tens_call_complete_repaired. Qed.
+Print Assumptions tensor_call_complete_repaired.
 
 (* reduce / accumulate / outer / at / reduceat without out: SOUND -- same store
    as NumPy; a scalar result is returned as that scalar, None (at) as None, an
    array result as a NumpyTensor over NumPy's buffer with its shape and dtype. *)
 Theorem tensor_method_transparent :
-  forall (T : Type) (cast : dt -> dt -> T -> T) (NP : @npsem T) (st : @store T) (sp : tspace)
+  forall (T : Type) (cast : dt -> dt -> T -> T) (V : variant) (NP : @npsem T) (st : @store T) (sp : tspace)
          (nout : nat) (m : meth) (ins : list (@operand T)) (kw : kwargs) (rins : list (@rop T))
          (rets : list (@operand T)) (st' : @store T),
   is_call m = false ->
   map_opt tens_unwrap ins = Some rins ->
-  tens_ufunc cast NP st sp nout m ins kw [] = Ok (rets, st') ->
+  tens_ufunc cast V NP st sp nout m ins kw [] = Ok (rets, st') ->
   exists rr,
     raw_ufunc cast NP st m kw rins (if is_at m then [] else [None]) = Ok ([rr], st')
     /\ exists r, rets = [r] /\
@@ -93,14 +109,14 @@ Print Assumptions tensor_method_transparent.
 (* ... and COMPLETE for these methods whenever the result space can be built
    (only an array weighting that cannot be cast to the result dtype prevents it). *)
 Theorem tensor_method_complete_partial :
-  forall (T : Type) (cast : dt -> dt -> T -> T) (NP : @npsem T) (st : @store T) (sp : tspace)
+  forall (T : Type) (cast : dt -> dt -> T -> T) (V : variant) (NP : @npsem T) (st : @store T) (sp : tspace)
          (nout : nat) (m : meth) (ins : list (@operand T)) (kw : kwargs) (rins : list (@rop T))
          (rr : @rret T) (st' : @store T),
   is_call m = false ->
   map_opt tens_unwrap ins = Some rins ->
   raw_ufunc cast NP st m kw rins (if is_at m then [] else [None]) = Ok ([rr], st') ->
   (forall id, rr = RRBuf id -> ts_valid (meth_space sp (rd st' id)) = true) ->
-  exists r, tens_ufunc cast NP st sp nout m ins kw [] = Ok ([r], st').
+  exists r, tens_ufunc cast V NP st sp nout m ins kw [] = Ok ([r], st').
 Proof. exact @tens_meth_complete. Qed.
 Print Assumptions tensor_method_complete_partial.
 
@@ -109,20 +125,20 @@ Print Assumptions tensor_method_complete_partial.
    exactly the one NumPy leaves when writing into that container's buffer --
    in both directions (ODL succeeds iff NumPy does). *)
 Theorem tensor_out_written_and_returned :
-  forall (T : Type) (cast : dt -> dt -> T -> T) (NP : @npsem T) (st : @store T) (sp : tspace)
+  forall (T : Type) (cast : dt -> dt -> T -> T) (V : variant) (NP : @npsem T) (st : @store T) (sp : tspace)
          (m : meth) (ins : list (@operand T)) (kw : kwargs) (rins : list (@rop T))
          (o : @operand T) (id : nat) (rets : list (@operand T)) (st' : @store T),
   (forall q rs, NP q = Ok rs -> length rs = 1%nat) ->
   is_at m = false -> kw_dtype kw = None ->
   tens_valid_out (Some o) = true -> op_buf o = Some id ->
   map_opt tens_unwrap ins = Some rins ->
-  tens_ufunc cast NP st sp 1 m ins kw [Some o] = Ok (rets, st') ->
+  tens_ufunc cast V NP st sp 1 m ins kw [Some o] = Ok (rets, st') ->
   rets = [o] /\ raw_ufunc cast NP st m kw rins [Some id] = Ok ([RRBuf id], st').
 Proof. exact @tens_out_sound. Qed.
 Print Assumptions tensor_out_written_and_returned.
 
 Theorem tensor_out_complete :
-  forall (T : Type) (cast : dt -> dt -> T -> T) (NP : @npsem T) (st : @store T) (sp : tspace)
+  forall (T : Type) (cast : dt -> dt -> T -> T) (V : variant) (NP : @npsem T) (st : @store T) (sp : tspace)
          (m : meth) (ins : list (@operand T)) (kw : kwargs) (rins : list (@rop T))
          (o : @operand T) (id : nat) (rrets : list (@rret T)) (st' : @store T),
   (forall q rs, NP q = Ok rs -> length rs = 1%nat) ->
@@ -130,7 +146,7 @@ Theorem tensor_out_complete :
   tens_valid_out (Some o) = true -> op_buf o = Some id ->
   map_opt tens_unwrap ins = Some rins ->
   raw_ufunc cast NP st m kw rins [Some id] = Ok (rrets, st') ->
-  tens_ufunc cast NP st sp 1 m ins kw [Some o] = Ok ([o], st').
+  tens_ufunc cast V NP st sp 1 m ins kw [Some o] = Ok ([o], st').
 Proof. exact @tens_out_complete. Qed.
 Print Assumptions tensor_out_complete.
 
@@ -154,7 +170,7 @@ Print Assumptions ufunc_changes_only_out.
      forall NP st sp ins kw rins l st',
        map_opt tens_unwrap ins = Some rins ->
        raw_ufunc cast NP st MCall kw rins [None] = Ok (l, st') ->
-       exists rets, tens_ufunc cast NP st sp 1 MCall ins kw [] = Ok (rets, st').
+       exists rets, tens_ufunc cast V NP st sp 1 MCall ins kw [] = Ok (rets, st').
    Refuted by np.add(x, np.ones((2, 3))) with x in rn(3), evaluated with the
    exact semantics of np.add (finding tensor-call-broadcast-grow); the provable
    restriction is tensor_call_complete_partial above. *)
@@ -162,14 +178,14 @@ Theorem tensor_call_complete_refuted :
   exists (NP : @npsem Q) st sp ins kw rins l st',
     map_opt tens_unwrap ins = Some rins
     /\ raw_ufunc castQ NP st MCall kw rins [None] = Ok (l, st')
-    /\ tens_ufunc castQ NP st sp 1 MCall ins kw [] = Err EValue.
+    /\ tens_ufunc castQ as_found NP st sp 1 MCall ins kw [] = Err EValue.
 Proof. exact call_complete_refuted. Qed.
 
 (* np.negative(x, dtype='float32'), x in rn(3, weighting=[1,2,3]): NumPy returns,
    ODL raises ValueError (finding tensor-dtype-kw-array-weighting) *)
 Theorem tensor_dtype_kw_array_weighting_refuted :
   exists l st', raw_ufunc castQ NPneg32 st_grow MCall kw32 [RopBuf 0] [None] = Ok (l, st')
-  /\ tens_ufunc castQ NPneg32 st_grow rn3w 1 MCall [OpTens rn3w 0] kw32 [] = Err EValue.
+  /\ tens_ufunc castQ as_found NPneg32 st_grow rn3w 1 MCall [OpTens rn3w 0] kw32 [] = Err EValue.
 Proof. exact dtype_kw_array_weighting_refuted. Qed.
 
 (* ---------------- discretized elements ---------------- *)
@@ -178,12 +194,12 @@ Proof. exact dtype_kw_array_weighting_refuted. Qed.
    arrays; each result is a DiscretizedSpaceElement with the PARTITION OF SELF
    over NumPy's buffer, with matching shape and dtype. *)
 Theorem discr_call_transparent :
-  forall (T : Type) (cast : dt -> dt -> T -> T) (NP : @npsem T) (st : @store T) (ds : dspace)
+  forall (T : Type) (cast : dt -> dt -> T -> T) (V : variant) (NP : @npsem T) (st : @store T) (ds : dspace)
          (nout k : nat) (ins : list (@operand T)) (kw : kwargs) (rins : list (@rop T))
          (rets : list (@operand T)) (st' : @store T),
   (k = 0 \/ k = nout)%nat ->
   map_opt tens_unwrap (map to_tensor ins) = Some rins ->
-  disc_ufunc cast NP st ds nout MCall ins kw (repeat None k) = Ok (rets, st') ->
+  disc_ufunc cast V NP st ds nout MCall ins kw (repeat None k) = Ok (rets, st') ->
   exists rrets,
     raw_ufunc cast NP st MCall (kw_drop_keepdims kw) rins (repeat None nout) = Ok (rrets, st')
     /\ Forall2 (fun r rr => exists rs id, r = OpDisc rs id /\ rr = RRBuf id
@@ -205,13 +221,13 @@ Print Assumptions discr_call_transparent.
    that one buffer differs (same dtype, same numbers).  k > 0 only arises
    from the negative-axis defect below. *)
 Theorem discr_method_transparent :
-  forall (T : Type) (cast : dt -> dt -> T -> T) (NP : @npsem T) (st : @store T) (ds : dspace)
+  forall (T : Type) (cast : dt -> dt -> T -> T) (V : variant) (NP : @npsem T) (st : @store T) (ds : dspace)
          (nout : nat) (m : meth) (ins : list (@operand T)) (kw : kwargs) (rins : list (@rop T))
          (outs : list (option (@operand T))) (rets : list (@operand T)) (st' : @store T),
   is_call m = false ->
   (outs = [] \/ outs = [None]) ->
   map_opt tens_unwrap (map to_tensor ins) = Some rins ->
-  disc_ufunc cast NP st ds nout m ins kw outs = Ok (rets, st') ->
+  disc_ufunc cast V NP st ds nout m ins kw outs = Ok (rets, st') ->
   exists rr st_raw,
     raw_ufunc cast NP st m (kw_drop_keepdims kw) rins (if is_at m then [] else [None]) = Ok ([rr], st_raw)
     /\ (st' = st_raw \/
@@ -226,26 +242,38 @@ Theorem discr_method_transparent :
              /\ ts_shape (ds_ts rs) = repeat 1%nat k ++ a_shape (rd st_raw id)
              /\ (m <> MReduce -> k = 0%nat) /\ (k = 0%nat -> st' = st_raw)
              /\ (m = MAccumulate -> ds_axes rs = ds_axes ds)
-             /\ (m = MReduce -> ds_axes rs = pick dummy_ax (ds_axes ds) (kept_axes (ndim ds) (kw_axis kw)))
+             /\ (m = MReduce -> ds_axes rs = pick dummy_ax (ds_axes ds) (kept_axes V (ndim ds) (kw_axis kw)))
        end.
 Proof. exact @disc_meth_sound. Qed.
 Print Assumptions discr_method_transparent.
 
 (* Which axes remain after reduce: for every rank and every list of
-   NON-NEGATIVE axes (int or tuple) and for axis absent, the code keeps exactly
-   the axes NumPy keeps (those not reduced, in order). *)
-Theorem discr_reduce_kept_axes :
-  forall (nd : nat),
-    kept_axes nd AxAbsent = filter (fun i => negb (existsb (Nat.eqb i) [0%nat])) (seq 0 nd)
-    /\ (forall z, (0 <= z)%Z ->
-          kept_axes nd (AxInt z) = filter (fun i => negb (existsb (Nat.eqb i) [Z.to_nat z])) (seq 0 nd))
-    /\ (forall l, Forall (fun z => (0 <= z)%Z) l ->
-          kept_axes nd (AxTuple l) = filter (fun i => negb (existsb (Nat.eqb i) (map Z.to_nat l))) (seq 0 nd)).
-Proof.
-  intros nd. split; [exact (kept_axes_absent nd) | split;
-    [exact (kept_axes_int_nonneg nd) | exact (kept_axes_tuple_nonneg nd)]].
-Qed.
-Print Assumptions discr_reduce_kept_axes.
+   NON-NEGATIVE axes (int or tuple) and for axis absent, the code (either
+   variant) keeps exactly the axes NumPy keeps (those not reduced, in order). *)
+Theorem discr_reduce_kept_axes_int :
+  forall (V : variant) (nd : nat) (z : Z), (0 <= z)%Z ->
+  kept_axes V nd (AxInt z) = filter (fun i => negb (existsb (Nat.eqb i) [Z.to_nat z])) (seq 0 nd).
+Proof. exact kept_axes_int_nonneg. Qed.
+Theorem discr_reduce_kept_axes_tuple :
+  forall (V : variant) (nd : nat) (l : list Z), Forall (fun z => (0 <= z)%Z) l ->
+  kept_axes V nd (AxTuple l) = filter (fun i => negb (existsb (Nat.eqb i) (map Z.to_nat l))) (seq 0 nd).
+Proof. exact kept_axes_tuple_nonneg. Qed.
+Theorem discr_reduce_kept_axes_absent :
+  forall (V : variant) (nd : nat),
+  kept_axes V nd AxAbsent = filter (fun i => negb (existsb (Nat.eqb i) [0%nat])) (seq 0 nd).
+Proof. exact kept_axes_absent. Qed.
+Print Assumptions discr_reduce_kept_axes_tuple.
+
+(* With the proposed repair (variant v_negaxis) the same holds for EVERY axis
+   NumPy accepts, negative ones included. *)
+Theorem discr_reduce_kept_axes_repaired :
+  forall (V : variant) (nd : nat) (l : list Z),
+  v_negaxis V = true -> Forall (fun z => (- Z.of_nat nd <= z)%Z) l ->
+  kept_axes V nd (AxTuple l) =
+  filter (fun i => negb (existsb (Nat.eqb i)
+            (map (fun z => Z.to_nat (if (z <? 0)%Z then z + Z.of_nat nd else z)%Z) l))) (seq 0 nd).
+Proof. exact kept_axes_tuple_repaired. Qed.
+Print Assumptions discr_reduce_kept_axes_repaired.
 
 (* FULL STATEMENT (FALSE): the same for negative axes.  Refuted by
    np.add.reduce(y, axis=-1), y in uniform_discr([0,0],[1,3],(2,3)): NumPy returns
@@ -253,7 +281,7 @@ Print Assumptions discr_reduce_kept_axes.
 Theorem discr_reduce_negative_axis_refuted :
   (exists l st', raw_ufunc castQ NPadd st_d MReduce kwm1 [RopBuf 0] [None] = Ok (l, st')
                  /\ a_shape (rd st' 1) = [2%nat] /\ a_data (rd st' 1) = [3; 12]%Q)
-  /\ disc_ufunc castQ NPadd st_d d23 1 MReduce [OpDisc d23 0] kwm1 [] = Err EValue.
+  /\ disc_ufunc castQ as_found NPadd st_d d23 1 MReduce [OpDisc d23 0] kwm1 [] = Err EValue.
 Proof. exact C17.Refuted.discr_reduce_negative_axis_refuted. Qed.
 
 (* ------------------------------------------------------------------------
